@@ -342,15 +342,40 @@ class SubList(list):
 
 
 class SubInt(int):
-    pass
+    """Like an IntEnum / IntFlag member: the value is the int, the texts
+    are not."""
+
+    def __repr__(self):
+        return '<SubInt.MEMBER: %d>' % int(self)
+
+    def __str__(self):
+        return 'SubInt.MEMBER'
+
+    def __format__(self, spec):
+        return 'SubInt.MEMBER'
 
 
 class SubStr(str):
-    pass
+    """Like a member of `class Header(str, enum.Enum)`: equal to, hashing
+    like and encoding as its value, while str() / repr() / format() give the
+    member's name.  Code that sorts, compares or looks up by str(key) instead
+    of key sees another string."""
+
+    def __repr__(self):
+        return '<SubStr.%s>' % str.upper(self)[::-1]
+
+    def __str__(self):
+        return 'SubStr.' + str.upper(self)[::-1]
+
+    def __format__(self, spec):
+        return 'SubStr.' + str.upper(self)[::-1]
 
 
 class SubFloat(float):
-    pass
+    def __repr__(self):
+        return 'SubFloat(%s)' % float.__repr__(self)
+
+    __str__ = __repr__
 
 
 def subclassify(v, rnd, p=0.5):
@@ -360,7 +385,8 @@ def subclassify(v, rnd, p=0.5):
     dispatch with isinstance must treat them like their base types."""
     import collections
     if isinstance(v, dict):
-        items = [(k, subclassify(x, rnd, p)) for k, x in v.items()]
+        items = [(SubStr(k) if type(k) is str and rnd.random() < p / 2
+                  else k, subclassify(x, rnd, p)) for k, x in v.items()]
         r = rnd.random()
         if r < p / 3:
             items.sort(key=lambda kv: kv[0], reverse=True)
